@@ -9,7 +9,8 @@ import numpy as np
 
 import core
 from core import Failure
-from props.c09 import config_for, coords, geom, max_nbr, other_arr
+from props.c09 import (config_for, coords, geom, max_nbr, other_arr, redeclared_layers, HarnessError, build_pattern,
+                       stored_mask, check_arr)
 
 ID = "C16"
 LEAN_MODULE = "SnowProofs.Props.C16"
@@ -48,8 +49,9 @@ RULE = ("EXHAUSTIVE over shapes: every shape n_x, n_y <= 7, n_z <= 4 (quick) / <
         "recorded subset; index-list requests in non-ascending order with the data of each trajectory row identified "
         "against the same-seed full recording; every group name queried twice, the first result overwritten in between, "
         "on objects built with 'all', with index lists and with thinning requests; and an object history that "
-        "re-points configPath to the other arrangement (same shape) after queries and tables, compared with the "
-        "model and the oracle of the final arrangement); non-trivial when n_x, n_y >= 2; distinct by the JSON form of the case (corpus cases repeat box shapes)")
+        "re-points configPath to the other arrangement (same shape) after queries and tables, and one that re-declares "
+        "N_vials across the shelf <-> pallet boundary, each compared with the model and the oracle of the final "
+        "configuration; the group column of Snowfall.to_frame against classes and filters); non-trivial when n_x, n_y >= 2; distinct by the JSON form of the case (corpus cases repeat box shapes)")
 EXPLANATION = ("Lean theorems for all shapes with n_x, n_y >= 2 about the group model + exhaustive comparison of the "
                "five code paths with the model over a box of shapes")
 PARALLEL = True
@@ -61,6 +63,8 @@ QUERIES = [[n] for n in NAMES] + [["corner", "edge"], ["edge", "core"], ["side",
 THIN = [f"uniform.{g}.2" for g in ("corner", "edge", "core", "side", "center")] + \
        [f"{g}_uniform_3" for g in ("edge", "core")] + \
        [f"{g}_random_1" for g in ("corner", "edge", "core", "side")] + ["edge_random_2", "all_uniform_3"]
+THIN_LABELLED = ("uniform.corner.2", "uniform.edge.2", "uniform.core.2", "uniform.side.2", "edge_uniform_3",
+                 "corner_random_1", "edge_random_2")
 THIN_QUERIED = ("uniform.edge.2", "corner_random_1", "all_uniform_3")
 FALL_QUERIES = [[n] for n in NAMES] + [["corner", "edge"], ["side", "core"], ["corner", "all"]]
 
@@ -92,9 +96,13 @@ def _requery(S):
             keep = [int(i) for i in np.where(first)[0]]
             try:
                 first[:] = ~first
+            except HarnessError:
+                raise
             except Exception:
                 pass
             out[g] = [keep, [int(i) for i in np.where(S.getVialGroup(g))[0]]]
+        except HarnessError:
+            raise
         except Exception as e:
             out[g] = {"raise": core.exc_class(e)}
     return out
@@ -126,8 +134,11 @@ def run_impl(case):
     obs = {"raise": None}
     try:
         S = Snowflake(storeStates="all", **kw)
-        _, E = S._buildInteractionMatrices()
-        obs["ext"] = [_lab(e) for e in np.asarray(E).ravel()]
+        check_arr(S, arr)
+        # exposure through the public accessor: H_ext = VIAL_EXT * k_ext * A
+        obs["ext"] = [_lab(round(float(h) / (20 * float(S.const["A"])), 9)) for h in np.asarray(S.H_ext).ravel()]
+    except HarnessError:
+        raise
     except Exception as e:
         return {"raise": core.exc_class(e), "stage": "init"}
     # 1. group queries
@@ -137,6 +148,8 @@ def run_impl(case):
             arg = q[0] if len(q) == 1 else q
             m = S.getVialGroup(arg)
             masks[_q(q)] = [int(i) for i in np.where(m)[0]]
+        except HarnessError:
+            raise
         except Exception as e:
             masks[_q(q)] = {"raise": core.exc_class(e)}
     obs["masks"] = masks
@@ -170,32 +183,54 @@ def run_impl(case):
                 rec["labels"] = [_lab(g) for _, g in rows.index]
                 rec["data_ok"] = [bool(int(v) < N and np.array_equal(np.asarray(r), XT[int(v), :]))
                                   for (v, _), r in zip(rows.index, rows.to_numpy())]
-                rec["mask"] = [int(i) for i in np.where(S4._storageMask)[0]]
+                rec["mask"] = [int(i) for i in np.where(stored_mask(S4))[0]]
                 if sel is int_subsets(N)[0] or len(subs) == 0:
                     rec["requery"] = _requery(S4)
+            except HarnessError:
+                raise
             except Exception as e:
                 rec["raise"] = core.exc_class(e)
             subs.append(rec)
         obs["subsets"] = subs
+    except HarnessError:
+        raise
     except Exception as e:
         obs["tables"] = {"raise": core.exc_class(e)}
-    # 3. Snowfall filters (stats tagged with the vial index so that the selected rows are visible)
+    # 3. Snowfall filters. To see WHICH rows an accessor returns, every repetition's nucleation times are made to
+    #    carry the vial index: the public Snowflake.run is wrapped for the duration of Snowfall.run so that the run
+    #    itself produces the tagged statistics (whether the table is built lazily or at the end of run() is the
+    #    code's business); the accessors are then compared with what the run produced (SF.stats)
     fall = {}
     try:
         SF = Snowfall(Nrep=2, pool_size=1, **kw)
-        SF.run(how="sequential")
-        for r in SF.stats:
-            SF.stats[r]["t_nucleation"] = 1000.0 * r + np.arange(N, dtype=float)
+        real_run = Snowflake.run
+
+        def tagged_run(self):
+            real_run(self)
+            self.stats["t_nucleation"] = 1000.0 * self.seed + np.arange(self.N_vials_total, dtype=float)
+
+        Snowflake.run = tagged_run
+        try:
+            SF.run(how="sequential")
+        finally:
+            Snowflake.run = real_run
+        produced = np.asarray(SF.stats[1]["t_nucleation"], dtype=float)
+        if not np.array_equal(produced, 1000.0 + np.arange(N)):
+            raise HarnessError("Snowfall.run(how='sequential') did not run the wrapped Snowflake.run for seed 1")
         for q in FALL_QUERIES:
             try:
                 arg = q[0] if len(q) == 1 else q
                 v = SF.nucleationTimes(group=arg, seed=1)
                 fall[_q(q)] = sorted(int(x - 1000) for x in v)
+            except HarnessError:
+                raise
             except Exception as e:
                 fall[_q(q)] = {"raise": core.exc_class(e)}
         labs = SF.to_frame()
         d = labs[(labs.variable == "t_nucleation") & (labs.seed == 1)].sort_values("vial")
         obs["fallLabels"] = [_lab(v) for v in d["group"].tolist()]
+    except HarnessError:
+        raise
     except Exception as e:
         fall = {"raise": core.exc_class(e)}
     obs["fall"] = fall
@@ -204,7 +239,9 @@ def run_impl(case):
     for g in NAMES:
         try:
             S2 = Snowflake(storeStates=g, **kw)
-            store[g] = [int(i) for i in np.where(S2._storageMask)[0]]
+            store[g] = [int(i) for i in np.where(stored_mask(S2))[0]]
+        except HarnessError:
+            raise
         except Exception as e:
             store[g] = {"raise": core.exc_class(e)}
     obs["store"] = store
@@ -217,7 +254,7 @@ def run_impl(case):
         try:
             with _recording(log):
                 S3 = Snowflake(storeStates=sp, **kw)
-            rec = {"mask": [int(i) for i in np.where(S3._storageMask)[0]], "choices": [c["out"] for c in log]}
+            rec = {"mask": [int(i) for i in np.where(stored_mask(S3))[0]], "choices": [c["out"] for c in log]}
             if sp in THIN_QUERIED:
                 # the object built WITH a thinning request must answer group queries like any other
                 rec["requery"] = _requery(S3)
@@ -225,7 +262,7 @@ def run_impl(case):
                 sdf, _ = S3.to_frame(n_timeSteps=2)
                 dd = sdf[sdf.variable == "t_nucleation"].sort_values("vial")
                 rec["statsLabels"] = [_lab(v) for v in dd["group"].tolist()]
-            if rec["mask"]:
+            if rec["mask"] and sp in THIN_LABELLED:
                 S3.run()
                 _, tdf = S3.to_frame(n_timeSteps=2)
                 t0 = tdf["Time"].min()
@@ -233,6 +270,8 @@ def run_impl(case):
                 rec["labels"] = [_lab(v) for v in d["group"].tolist()]
                 rec["vials"] = [int(v) for v in d["vial"].tolist()]
             thin[sp] = rec
+        except HarnessError:
+            raise
         except Exception as e:
             thin[sp] = {"raise": core.exc_class(e), "choices": [c["out"] for c in log]}
     obs["thin"] = thin
@@ -246,7 +285,8 @@ def run_impl(case):
         S6.run()
         S6.to_frame(n_timeSteps=2)
         S6.configPath = config_for(oth)
-        _, E6 = S6._buildInteractionMatrices()
+        check_arr(S6, oth)
+        _, E6 = build_pattern(S6)
         sw["ext"] = [_lab(e) for e in np.asarray(E6).ravel()]
         sw["requery"] = _requery(S6)
         sw["masks"] = {}
@@ -259,9 +299,35 @@ def run_impl(case):
         t0 = tdf["Time"].min()
         d = tdf[(tdf.state == "temperature") & (tdf.Time == t0)].sort_values("vial")
         sw["trajLabels"] = [_lab(v) for v in d["group"].tolist()]
+    except HarnessError:
+        raise
     except Exception as e:
         sw["raise"] = core.exc_class(e)
     obs["switched"] = sw
+    # 7. object history across the shelf <-> pallet boundary: built and queried for the case's shape, then N_vials
+    #    re-declared to (n_x, n_y, n_z') with n_z 1 -> 2|3 or n_z > 1 -> 1; exposure, every group query and the
+    #    statistics-table labels must be those of the final shape
+    new, _ = redeclared_layers(case)
+    ly = {"shape": list(new)}
+    try:
+        S7 = Snowflake(storeStates=None, **kw)
+        _requery(S7)
+        S7.H_ext
+        S7.N_vials = new
+        _, E7 = build_pattern(S7)
+        ly["ext"] = [_lab(e) for e in np.asarray(E7).ravel()]
+        ly["hext_ok"] = bool(np.array_equal(np.asarray(S7.H_ext).ravel(),
+                                            np.asarray(E7).ravel() * S7.k["ext"] * S7.const["A"]))
+        ly["requery"] = _requery(S7)
+        S7.run()
+        sdf, _ = S7.to_frame(n_timeSteps=2)
+        d = sdf[sdf.variable == "t_nucleation"].sort_values("vial")
+        ly["statsLabels"] = [_lab(v) for v in d["group"].tolist()]
+    except HarnessError:
+        raise
+    except Exception as e:
+        ly["raise"] = core.exc_class(e)
+    obs["layers"] = ly
     return obs
 
 
@@ -297,6 +363,12 @@ def run_model(drv, case, impl):
         raise RuntimeError(r5["error"])
     out["switched"] = {"ext": r5["ext"], "statsLabels": r5["statsLabels"], "trajLabels": r5["trajLabels"],
                        "masks": {_q(q): m for q, m in zip(QUERIES, r5["masks"])}}
+    new, _ = redeclared_layers(case)
+    r6 = drv.call(dict(op="groups", queries=QUERIES, arr=case["arr"], nx=new[0], ny=new[1], nz=new[2]))
+    if "error" in r6:
+        raise RuntimeError(r6["error"])
+    out["layers"] = {"ext": r6["ext"], "statsLabels": r6["statsLabels"],
+                     "masks": {_q(q): m for q, m in zip(QUERIES, r6["masks"])}}
     return out
 
 
@@ -376,6 +448,21 @@ def compare(case, impl, model):
                     dis.append(f"{tag}: getVialGroup({q}): impl {m} vs model {msw['masks'][q]}")
             if sw["statsLabels"] != msw["statsLabels"] or sw["trajLabels"] != msw["trajLabels"]:
                 dis.append(f"{tag}: table labels are not those of the final arrangement")
+    ly, mly = impl.get("layers"), model.get("layers")
+    if ly is not None and mly is not None:
+        tag = f"object re-declared to N_vials = {tuple(ly['shape'])} after queries"
+        if "raise" in ly:
+            dis.append(f"{tag}: raises {ly['raise']}")
+        else:
+            if ly["ext"] != mly["ext"] or not ly["hext_ok"]:
+                dis.append(f"{tag}: VIAL_EXT / H_ext are not those of the final shape")
+            for g in NAMES:
+                mg = mly["masks"][_q([g])]
+                if ly["requery"].get(g) != [mg, mg]:
+                    dis.append(f"{tag}: getVialGroup({g!r}) twice: impl {ly['requery'].get(g)} vs model {mg}")
+                    break
+            if ly["statsLabels"] != mly["statsLabels"]:
+                dis.append(f"{tag}: statistics-table labels are not those of the final shape")
     for sp, m in model["thin"].items():
         a = impl["thin"].get(sp, {})
         if a.get("raise") != m.get("raise") or a.get("mask") != m.get("mask"):
@@ -390,6 +477,18 @@ def compare(case, impl, model):
 # ---------------------------------------------------------------------------
 # the property itself, evaluated on the implementation's output
 # ---------------------------------------------------------------------------
+import functools
+
+
+@functools.lru_cache(maxsize=None)
+def expo_oracle(arr, nx, ny, nz):
+    """exposed faces of every vial from the geometric neighbour relation (all pairs), cached per configuration"""
+    N = nx * ny * nz
+    co = [coords(i, nx, ny) for i in range(N)]
+    mx = max_nbr(arr, nz)
+    return tuple(mx - sum(1 for j in range(N) if j != i and geom(arr, co[i], co[j])) for i in range(N))
+
+
 def oracle_class(arr, nz, e):
     """class from the number of exposed faces (independent of the code)"""
     flat = nz == 1
@@ -429,8 +528,7 @@ def predicates(case, impl):
         return out
     N = nx * ny * nz
     co = [coords(i, nx, ny) for i in range(N)]
-    mx = max_nbr(arr, nz)
-    expo = [mx - sum(1 for j in range(N) if j != i and geom(arr, co[i], co[j])) for i in range(N)]
+    expo = list(expo_oracle(arr, nx, ny, nz))
     cls = [oracle_class(arr, nz, e) for e in expo]
     if any(c is None for c in cls):
         i = cls.index(None)
@@ -526,8 +624,7 @@ def predicates(case, impl):
             out.append(Failure(clause="groups_same_on_every_object", key=f"groups_same_on_every_object|configPath|raises {sw['raise']}",
                                detail=f"{tag}: raises {sw['raise']}"))
         else:
-            mx2 = max_nbr(oth, nz)
-            expo2 = [mx2 - sum(1 for j in range(N) if j != i and geom(oth, co[i], co[j])) for i in range(N)]
+            expo2 = list(expo_oracle(oth, nx, ny, nz))
             cls2 = [oracle_class(oth, nz, e) for e in expo2]
             if all(c is not None for c in cls2):
                 want2 = {g: [i for i in range(N) if cls2[i] == canon(oth, nz, g)] for g in ("corner", "edge", "side", "core", "center")}
@@ -545,6 +642,47 @@ def predicates(case, impl):
                     if [canon(oth, nz, l) if isinstance(l, str) else l for l in labs] != cls2:
                         out.append(Failure(clause="labels_agree", key=f"labels_agree|configPath|switched,{tab},{sc2}",
                                            detail=f"{tag}: {tab} = {labs}; classes {cls2}"))
+    # object history across the shelf <-> pallet boundary: exposure, classes and labels of the FINAL shape
+    ly = impl.get("layers")
+    if ly is not None:
+        nx2, ny2, nz2 = ly["shape"]
+        N2 = nx2 * ny2 * nz2
+        tag = f"{where} object re-declared to N_vials = ({nx2}, {ny2}, {nz2}) after queries"
+        sc2 = "%s,%s->%s" % (arr, "flat" if nz == 1 else "pallet", "flat" if nz2 == 1 else "pallet")
+        if "raise" in ly:
+            out.append(Failure(clause="groups_same_on_every_object", key=f"groups_same_on_every_object|N_vials|raises {ly['raise']},{sc2}",
+                               detail=f"{tag}: raises {ly['raise']}"))
+        else:
+            co2 = [coords(i, nx2, ny2) for i in range(N2)]
+            expo2 = list(expo_oracle(arr, nx2, ny2, nz2))
+            cls2 = [oracle_class(arr, nz2, e) for e in expo2]
+            if ly["ext"] != expo2 or not ly["hext_ok"]:
+                k0 = next((i for i, (a, b) in enumerate(zip(ly["ext"], expo2)) if a != b), 0)
+                out.append(Failure(clause="class_is_exposure_level", key=f"class_is_exposure_level|N_vials|re-declared,{sc2}",
+                                   detail=f"{tag}: VIAL_EXT[{k0}] = {ly['ext'][k0] if k0 < len(ly['ext']) else None}, the vial "
+                                          f"has {expo2[k0]} exposed faces; H_ext consistent with VIAL_EXT: {ly['hext_ok']}"))
+            if all(c is not None for c in cls2):
+                want2 = {g: [i for i in range(N2) if cls2[i] == canon(arr, nz2, g)] for g in ("corner", "edge", "side", "core", "center")}
+                want2["all"] = list(range(N2))
+                for g in NAMES:
+                    if ly["requery"].get(g) != [want2[g], want2[g]]:
+                        out.append(Failure(clause="groups_same_on_every_object",
+                                           key=f"groups_same_on_every_object|N_vials|re-declared,{sc2}",
+                                           detail=f"{tag}: getVialGroup({g!r}) = {ly['requery'].get(g)}; the class is {want2[g]}"))
+                        break
+                labs = ly["statsLabels"]
+                if [canon(arr, nz2, l) if isinstance(l, str) else l for l in labs] != cls2:
+                    out.append(Failure(clause="labels_agree", key=f"labels_agree|N_vials|re-declared,{sc2}",
+                                       detail=f"{tag}: statistics-table labels {labs}; classes {cls2}"))
+    # the group column of Snowfall's table: the same classes as getVialGroup and the filters
+    fl = impl.get("fallLabels")
+    if fl is not None and [canon(arr, nz, l) if isinstance(l, str) else l for l in fl] != cls:
+        i = next((i for i, l in enumerate(fl) if i >= N or not isinstance(l, str) or canon(arr, nz, l) != cls[i]), 0)
+        got = {g: (impl["fall"].get(_q([g])) if isinstance(impl["fall"], dict) else None) for g in ("corner", "edge", "core")}
+        out.append(Failure(clause="labels_agree", key=f"labels_agree|Snowfall.to_frame|{cls[i] if i < N else None},{sc}",
+                           detail=f"{where}: Snowfall.to_frame() labels vial {i}{co[i] if i < N else ''} {fl[i] if i < len(fl) else None!r} "
+                                  f"(rows labelled corner: {[j for j, l in enumerate(fl) if l == 'corner']}), its class is "
+                                  f"{cls[i] if i < N else None}; the filters keep {got}, getVialGroup('corner') = {want['corner']}"))
     # recorded index lists in the user's order: the label of a trajectory row is the class of the vial whose
     # data the row holds (data identified against the same-seed run that records every vial)
     for r in impl.get("subsets", []):
@@ -572,7 +710,7 @@ def predicates(case, impl):
         if not set(rec["mask"]) <= set(want[g]) or (want[g] and not rec["mask"]):
             out.append(Failure(clause="store_thinning_in_group", key=f"store_thinning_in_group|storeStates|{mode},{sc}",
                                detail=f"{where}: storeStates={sp!r} records {rec['mask']}, the group {g!r} is {want[g]}"))
-        elif rec["mask"] and g != "all":
+        elif rec["mask"] and g != "all" and "labels" in rec:
             labs = rec.get("labels", [])
             if rec.get("vials") != rec["mask"] + [] or any(
                     (not isinstance(l, str)) or canon(arr, nz, l) != canon(arr, nz, g) for l in labs):
